@@ -298,6 +298,17 @@ def r5(ctx: Context, sites) -> None:
                 txt = ast.unparse(o.node)
                 ok = f"{p_wf}.workflow_id" in txt and (f"[{p_key}]" in txt or f".get({p_key}" in txt)
                 ctx.add("R5", f"{o.qualname}::keyed-by-workflow-and-key", ok, o.loc(), "" if ok else "workflow data is not addressed by (workflow id, key)")
+                if nm == "set_workflow_data":
+                    # one record = one item store; replacing the workflow's whole mapping by an updated COPY loses the records a
+                    # concurrent thread of the same workflow (the workflow task and a running sub-task) stored in between
+                    from ..flow import read_copy_write_sites
+
+                    rcw = read_copy_write_sites(o.node)
+                    ctx.add("R5", f"{o.qualname}::record-stored-as-one-item", not rcw, o.loc(rcw[0][0]) if rcw else o.loc(), "" if not rcw else f"`{ast.unparse(rcw[0][0])[:70]}` replaces self.{rcw[0][1]}[...] by a value computed from a copy of it, without a lock: a record written by another thread of the same workflow between the copy and the store is lost - the re-execution launches the sub-task again / draws a new value")
+            # a read that FAILED is not 'nothing recorded': the executor would generate and store a fresh value
+            if nm == "get_workflow_data":
+                swallow = [h for h in ast.walk(o.node) if isinstance(h, ast.ExceptHandler) and not (h.body and isinstance(h.body[-1], ast.Raise))]
+                ctx.add("R5", f"{o.qualname}::read-errors-are-not-absence", not swallow, o.loc(swallow[0]) if swallow else o.loc(), "" if not swallow else f"`except {ast.unparse(swallow[0].type) if swallow[0].type else ''}` turns a failed read into the default ('no record yet'): on re-execution the deterministic executor then launches the sub-task again or stores a new value over the recorded one")
 
 
 def run(ctx: Context) -> None:
